@@ -118,3 +118,16 @@ PROPS["C04"] = dict(
         dict(test="TestC04Procedures", quick=dict(checks=24000, shards=8, timeout=300), thorough=dict(checks=2000000, shards=16, timeout=3000)),
     ],
 )
+
+PROPS["C15"] = dict(
+    pkg="c15", level="exploration",
+    technique="property-based testing (rapid) over generated schedules: real generated archetypes under a deterministic step scheduler (gate through SetFairnessCounter), spec-faithful bag network, invariant oracles after every committed step",
+    level_text="The shipped AServer/AClient archetypes (1-8 clients) run on the real Run loop, one attempt at a time under a harness scheduler; who steps "
+               "and which message a bag read delivers are rapid draws, so interleavings and delivery orders are searched, shrunk and replayed. After every "
+               "commit: at most one hasLock; grants only to clients with an outstanding unserved request; k-th grant goes to the k-th request the server received.",
+    level_note="The network is the harness's implementation of the spec's ReliableLink bag macro; schedules are sampled, not enumerated.",
+    rule="drawn schedules of up to 60n+40 attempts; non-trivial = >=3 clients and at some point the lock holder plus >=2 waiting requests at the server; distinct by rendered schedule.",
+    runs=[
+        dict(test="TestC15LockService", quick=dict(checks=16000, shards=8, timeout=300), thorough=dict(checks=1600000, shards=16, timeout=3000)),
+    ],
+)
